@@ -39,7 +39,8 @@ EXPLANATION = (
     "value is formatted the cursor is first taken modulo the length of the format, on every path to the scanning routines: "
     "the format is reused cyclically; (R11) every PrintState field a per-item operation modifies is written when a PRINT "
     "statement starts (the reset that selecting the printer performs), not only when it ends: an error can end a "
-    "statement before PrintEnd runs.")
+    "statement before PrintEnd runs; (R12) the print modules read text by characters: no function of them asks a string for "
+    "its UTF-8 bytes or casts a byte to a character, except the routine that hands the text to the writer.")
 NOT_DECIDED = [
     "the digits a number is rendered as (Display of f32 / f64 versus QBasic's rendering)",
     "PRINT USING: field scanning, cyclic reuse of the format, rounding (value-level string arithmetic)",
@@ -1484,6 +1485,58 @@ def r11_a_statement_starts_clean(ctx, rule="C16.R11"):
     ctx.require(rule, 4)
 
 
+def r12_text_is_read_by_characters(ctx, rule="C16.R12"):
+    """A character of a BASIC string (codes 0..255) is one `char` of the Rust string but up to two bytes of its UTF-8
+    form.  The PRINT machinery - the format scanners of PRINT USING, the number framing, the printers' column counters -
+    reads text by characters: no function of the print modules asks a string for its UTF-8 bytes (`as_bytes`, `bytes`,
+    `into_bytes`, `len` is C16.R5's business) to make characters of them, and none casts a `u8` to a `char`.  The one
+    place where text becomes bytes is the advancing routine that hands it to the writer."""
+    prog = ctx.prog
+    from .c18 import _UTF8_BYTES
+    _tr, impls = _printer_impls(prog)
+    writers = set()
+    for imp, ms in impls:
+        for h in prog.fns.values():
+            if h.impl is not None and h.impl.get("self_adt") == imp["self_adt"] and any(
+                    (mir.callee_path(t) in WRITE_CALLS or (t.get("callee") or "") in WRITE_CALLS) for _b, t in h.body.calls()):
+                writers.add(h.id)
+    fns = [f for f in prog.fns.values() if f.crate == "rusty_basic" and f.kind != "const" and f.file
+           and f.file.endswith(("interpreter/print.rs", "interpreter/write_printer.rs"))]
+    if len(fns) < 10:
+        raise CheckError("%s: the print modules were not found (%d functions)" % (rule, len(fns)))
+    bad = {}
+    for f in fns:
+        owner = prog.enclosing_fn(f) or f
+        for blk in f.body.blocks:
+            if blk.get("c"):
+                continue
+            for st in blk["s"]:
+                r = st.get("r", {})
+                if st["k"] == "assign" and r.get("k") == "cast":
+                    so = mir.op_place(r["o"])
+                    sty = f.body.locals[so[0]]["ty"] if so is not None and not so[1] else ""
+                    dty = f.body.locals[st["p"][0]]["ty"] if not st["p"][1] else (r.get("ty") or "")
+                    if sty == "u8" and dty == "char":
+                        bad.setdefault(owner.id, []).append("casts a byte to a character (line %s)" % st.get("ln"))
+        if owner.id in writers:
+            continue
+        for _b, t in f.body.calls():
+            cp = t.get("cpath") or ""
+            if cp.split("::")[-1] in _UTF8_BYTES and ("str" in cp or "String" in cp or "string" in cp):
+                bad.setdefault(owner.id, []).append("%s (line %s)" % (cp.split("::")[-1], t.get("ln")))
+    owners = sorted({(prog.enclosing_fn(f) or f).id for f in fns})
+    for oid in owners:
+        o = prog.fns[oid]
+        short = o.path.split("::", 1)[1]
+        if oid in bad:
+            ctx.violation(rule, "%s:%s" % (rule, short), o.loc,
+                          "%s reads text through its UTF-8 bytes - %s: a character above 127 (CHR$(156) in a PRINT USING format) is "
+                          "taken for two characters, printed as two, and counted as two columns" % (short, "; ".join(sorted(set(bad[oid]))[:3])))
+    ctx.ok(rule, rule + ":print-modules-scanned", "-", "%d functions of the print modules, %d read text by characters" % (len(owners), len(owners) - len(bad)))
+    ctx.analysed_units(rule, functions=len(owners), byte_writers=sorted(prog.fns[w].name for w in writers))
+    ctx.require(rule, 1)
+
+
 def run(ctx):
     common.install(ctx)
     devices = r1_device_dispatch(ctx)
@@ -1500,3 +1553,4 @@ def run(ctx):
     c01.r5_print_state_is_statement_scoped(ctx, "C16.R9")
     r10_format_is_reused_cyclically(ctx)
     r11_a_statement_starts_clean(ctx)
+    r12_text_is_read_by_characters(ctx)
